@@ -23,6 +23,27 @@ def wire_prop(pid, theorems, suites, extra=None):
     d.update(extra or {})
     return d
 
+WRITER_FLAG = r"(^| )p( |$)|PANIC|GARBAGE|STICKY|ROUNDTRIP"
+
+def writer_stream(suite):
+    return {"name": suite, "gen": ["{bin}/writer", "gen", suite, "{seed}", "{tier}", "{stats}"],
+            "go": ["{bin}/writer"], "lean": ["{lean}/writerdriver"]}
+
+def writer_prop(pid, theorems, suites, extra=None):
+    d = {
+        "level": "proof",
+        "audit_imports": ["SpecVerif.Props.%s" % pid, "SpecVerif.Ties"],
+        "lean_targets": ["SpecVerif.Props.%s" % pid, "SpecVerif.Ties", "writerdriver"],
+        "go_cmds": ["writer"],
+        "theorems": ["SpecVerif.%s.%s" % (pid, t) for t in theorems],
+        "ties": TIES,
+        "streams": [writer_stream(s) for s in suites],
+        "flag": WRITER_FLAG,
+        "rule": "one evaluation = one writer program run on the implementation and on the model (per-call outcome tokens, built bytes, parse result, walk); distinct non-trivial = distinct (first call, full answer) pairs",
+    }
+    d.update(extra or {})
+    return d
+
 PROPS = {
     "C10": {
         "level": "proof",
@@ -44,4 +65,19 @@ PROPS = {
                      ["c02"], {"assumptions": ["Go slices/ints as modelled (64-bit int, no overflow below 2^63)", "index out of range on List.Get(i) with i >= Len() is caller misuse, not hostile data"]}),
     "C13": wire_prop("C13", ["decoders_local", "parse_local", "parse_depends_only_on_value", "reparse", "fuel_irrelevant"],
                      ["c13"], {"assumptions": ["partial: the parser/probe/open agreement clause is checked differentially and by the Go-side oracle, not by a theorem"]}),
+    "C01": writer_prop("C01", ["parse_exact", "probe_exact", "list_roundtrip", "msg_field_found", "msg_field_absent",
+                                "msg_enumerates_written", "absent_reads_zero"], ["c01"],
+                       {"assumptions": ["partial: writer_refines_layout (the writer state machine emits encList/encMsg of the children) is checked on every generated program by the drivers (REF-MISMATCH), not by a theorem",
+                                        "message tags below 2^16 and total sizes below 2^32 (MsgWF); float32 laws (FloatLaws)"]}),
+    "C08": writer_prop("C08", ["type_codes", "fixed_width_big_endian", "string_layout", "varint_widths", "list_big_iff",
+                                "list_type_code", "msg_big_iff", "msg_table_sorted", "readable_by_library"], ["c08"],
+                       {"assumptions": ["partial: independence from the initial buffer content is checked by the wp:/wd/wr/wpool streams, not by a theorem"]}),
+    "C12": writer_prop("C12", ["sticky_write", "sticky_element", "sticky_field", "sticky_end", "sticky_fieldAny", "sticky_begin",
+                                "sticky_queries", "fail_keeps_first", "fail_records", "free_safe", "after_free_sticky",
+                                "reset_clean", "closed_handle", "double_end"], ["c12"],
+                       {"assumptions": ["partial: no_panic for all call sequences and build_ok_parses are decided by the differential stream and the Go-side oracle, not by a theorem",
+                                        "calls through a handle kind the Go type system rejects are outside the alphabet (bad-op)"]}),
+    "C16": writer_prop("C16", ["common_field_unchanged", "absent_field_zero", "order_irrelevant"], ["c16"],
+                       {"assumptions": ["partial: copy_preserves is checked by the merge-preserves-unknown stream and the Go round-trip oracle",
+                                        "the generated-code leg (schemas A/A' through the compiler) belongs to C05's machinery"]}),
 }
